@@ -2,6 +2,7 @@
 #define PARSENUM_H_
 
 #include <assert.h>
+#include <ctype.h>
 #include <errno.h>
 #include <inttypes.h>
 #include <math.h>
@@ -181,6 +182,7 @@ parsenum_unsigned(const char * s, uintmax_t min, uintmax_t max,
     uintmax_t typemax, int base, int trailing)
 {
 	char * eptr;
+	const char * p;
 	uintmax_t val;
 
 	/* Sanity check. */
@@ -191,6 +193,17 @@ parsenum_unsigned(const char * s, uintmax_t min, uintmax_t max,
 		errno = EINVAL;
 	else if ((val < min) || (val > max) || (val > typemax))
 		errno = ERANGE;
+	else {
+		/*
+		 * strtoumax negates the value of a numeral with a minus
+		 * sign; a negative number is out of range for an unsigned
+		 * type (but "-0" is zero).
+		 */
+		for (p = s; isspace((unsigned char)(*p)); p++)
+			continue;
+		if ((*p == '-') && (val != 0))
+			errno = ERANGE;
+	}
 	return (val);
 }
 
